@@ -172,6 +172,42 @@ def check_after_foreign_call(tree):
     return out
 
 
+def check_big_tree():
+    """a tree of ~140 nodes: clone_from_root from every node, an in-place regroup near the root, and again"""
+    out = []
+    text = " + ".join(str(i) for i in range(1, 71))
+    tree = RW.parse(text).clone()
+    res = check_from_root(tree)
+    if res:
+        return [(res[0][0] + "|140-node-sum", res[0][1][:200])]
+    # the same history on fresh trees, one node at a time (the sweep above has already visited every node once)
+    for pick in (-1, 0, 68, -3):
+        t2 = RW.parse(text).clone()
+        nodes = RW.inorder(t2)
+        n = nodes[pick]
+        try:
+            n.clone_from_root()
+            rule0 = RW.config("AG")
+            tg = next((m for m in RW.inorder(t2) if rule0.can_apply_to(m) and m.parent is not None and m.parent.parent is None), None)
+            if tg is not None:
+                rule0.apply_to(tg)
+            r = n.clone_from_root()
+            if RW.path_of(r) != RW.path_of(n) or SG.sig(RW.get_root(r)) != SG.sig(RW.get_root(n)):
+                out.append(("clone_from_root-wrong-position|140-node-sum-after-in-place-regroup", f"node {pick}"))
+        except Exception as e:  # noqa
+            out.append((f"clone_from_root-raises:{type(e).__name__}|140-node-sum-after-in-place-regroup", f"node {pick}: {e!r}"[:160]))
+            break
+    rule = RW.config("AG")
+    target = next((n for n in RW.inorder(tree) if rule.can_apply_to(n) and n.parent is not None and n.parent.parent is None), None)
+    if target is not None:
+        rule.apply_to(target)
+        tree = RW.get_root(target)
+        res = check_from_root(tree)
+        if res:
+            out.append((res[0][0] + "|140-node-sum-after-in-place-regroup", res[0][1][:200]))
+    return out
+
+
 def degenerate_sigs():
     """one-operand nodes that have no operand yet, flag on either side (alone and under a binary node)"""
     out = []
@@ -209,6 +245,9 @@ def _work(task):
     kind = task[0]
     acc = Acc()
     if kind == "extra":
+        acc.count("trees")
+        for k, d in check_big_tree():
+            acc.violation(k, {"sig": None, "mode": "big", "task": ["extra"]}, d)
         for s in degenerate_sigs():
             acc.count("trees")
             for k, d in check_degenerate(s):
@@ -332,6 +371,8 @@ def _replay_direct(case):
     if "sig" in case:
         def tup(x):
             return tuple(tup(i) for i in x) if isinstance(x, list) else x
+        if case.get("mode") == "big":
+            return check_big_tree()
         s = tup(case["sig"])
         if case.get("mode") == "degenerate":
             return [(f"{k}|{RW.pat(s, 1)}|no-operand", d) for k, d in check_degenerate(s)]
